@@ -110,6 +110,148 @@ def templates(repo: Repo) -> List[Tuple[str, str, Dict[str, Tuple[ast.AST, bool]
     return out
 
 
+# --------------------------------------------------------------------------- template member functions
+_BINDERS = ("classmethod", "staticmethod", "property")
+
+
+def _first_param(f: ast.AST) -> Optional[str]:
+    a = f.args  # type: ignore[attr-defined]
+    ps = list(getattr(a, "posonlyargs", [])) + list(a.args)
+    return ps[0].arg if ps else None
+
+
+def _params(f: ast.AST) -> List[str]:
+    a = f.args  # type: ignore[attr-defined]
+    out = [x.arg for x in list(getattr(a, "posonlyargs", [])) + list(a.args) + list(a.kwonlyargs)]
+    if a.vararg:
+        out.append(a.vararg.arg)
+    if a.kwarg:
+        out.append(a.kwarg.arg)
+    return out
+
+
+def _resolve_callable(repo: Repo, rel: str, name: str, at: ast.AST) -> List[ast.AST]:
+    """Function definitions / lambdas a bare name denotes at *at*: enclosing function scopes inside out, then the module."""
+    scopes = [a for a in ancestors(at) if isinstance(a, FuncNode)]
+    for sc in scopes:
+        found: List[ast.AST] = [d for d in ast.walk(sc) if isinstance(d, FuncNode) and d is not sc and d.name == name]
+        for n in ast.walk(sc):
+            if isinstance(n, ast.Assign) and any(isinstance(t, ast.Name) and t.id == name for t in n.targets) and isinstance(n.value, ast.Lambda):
+                found.append(n.value)
+        if found:
+            return found
+    d = repo.module(rel).defs.get(name)
+    return [d] if isinstance(d, FuncNode) else []
+
+
+def member_functions(repo: Repo, rel: str, attrs: Dict[str, Tuple[ast.AST, bool]], site: ast.AST) -> List[Tuple[str, ast.AST, str]]:
+    """(attribute, function definition or lambda, binding) of every template attribute whose value is a function
+    the analysis can see; binding is classmethod / staticmethod / property / plain."""
+    out: List[Tuple[str, ast.AST, str]] = []
+    for attr, (node, _cm) in sorted(attrs.items()):
+        if isinstance(node, FuncNode):
+            binding = next((dotted_name(d) for d in node.decorator_list if dotted_name(d) in _BINDERS), "plain")
+            out.append((attr, node, binding or "plain"))
+            continue
+        v = node.value if isinstance(node, (ast.Assign, ast.AnnAssign)) else node
+        binding = "plain"
+        seen = 0
+        while v is not None and seen < 6:
+            seen += 1
+            if isinstance(v, ast.Call) and isinstance(v.func, ast.Name) and v.func.id in _BINDERS and v.args:
+                binding = v.func.id if binding == "plain" else binding
+                v = v.args[0]
+                continue
+            break
+        if isinstance(v, ast.Lambda):
+            out.append((attr, v, binding))
+        elif isinstance(v, ast.Name):
+            for d in _resolve_callable(repo, rel, v.id, site):
+                b = binding
+                if b == "plain" and isinstance(d, FuncNode):
+                    b = next((dotted_name(x) for x in d.decorator_list if dotted_name(x) in _BINDERS), "plain") or "plain"
+                out.append((attr, d, b))
+    return out
+
+
+def _runtime_derived(e: Optional[ast.AST], fn: ast.AST, tainted: Set[str], _seen: Optional[Set[str]] = None) -> bool:
+    """True when *e* denotes the run-time class of the receiver (the receiver of a classmethod, type(receiver),
+    receiver.__class__, or a local that was assigned one of those)."""
+    _seen = _seen if _seen is not None else set()
+    if isinstance(e, ast.Name):
+        if e.id in tainted:
+            return True
+        if e.id in _seen:
+            return False
+        _seen.add(e.id)
+        return any(_runtime_derived(v, fn, tainted, _seen) for v in assigned_value(fn, e.id))
+    if isinstance(e, ast.Call) and isinstance(e.func, ast.Name) and e.func.id == "type" and len(e.args) == 1:
+        return _runtime_derived(e.args[0], fn, tainted, _seen)
+    if isinstance(e, ast.Attribute) and e.attr == "__class__":
+        return _runtime_derived(e.value, fn, tainted, _seen)
+    if isinstance(e, ast.IfExp):
+        return _runtime_derived(e.body, fn, tainted, _seen) or _runtime_derived(e.orelse, fn, tainted, _seen)
+    if isinstance(e, ast.NamedExpr):
+        return _runtime_derived(e.value, fn, tainted, _seen)
+    return False
+
+
+def super_calls(repo: Repo, rel: str, fn: ast.AST, tainted: Set[str], template: ast.AST, _depth: int = 0, _visited: Optional[Set[int]] = None) -> List[Tuple[ast.Call, ast.AST, str]]:
+    """Every ``super(...)`` call a template member executes - in its own body, in closures nested in it and in
+    same-module helpers the receiver is handed to (three levels) - with a verdict:
+    ''            the walk starts behind the class that defines the member (zero-argument form lexically inside the
+                  template's class statement, or an explicit class that is not derived from the receiver);
+    'runtime'     the first argument is the receiver's run-time class: a subclass of the generated class resolves to
+                  the same function again (unbounded recursion);
+    'no-cell'     zero-argument form outside the template's class statement (no / a foreign ``__class__`` cell).
+    """
+    _visited = _visited if _visited is not None else set()
+    if id(fn) in _visited or _depth > 3:
+        return []
+    _visited.add(id(fn))
+    out: List[Tuple[ast.Call, ast.AST, str]] = []
+    body_nodes = list(walk_no_nested(fn))
+    for n in body_nodes:
+        if n is not fn and isinstance(n, FuncNode + (ast.Lambda,)):
+            out.extend(super_calls(repo, rel, n, tainted - set(_params(n)), template, _depth, _visited))
+        if not isinstance(n, ast.Call):
+            continue
+        if isinstance(n.func, ast.Name) and n.func.id == "super":
+            if not n.args:
+                cls_anc = next((a for a in ancestors(n) if isinstance(a, ast.ClassDef)), None)
+                out.append((n, fn, "" if (isinstance(template, ast.ClassDef) and cls_anc is template) else "no-cell"))
+            else:
+                out.append((n, fn, "runtime" if _runtime_derived(n.args[0], fn, tainted) else ""))
+            continue
+        # the receiver handed to a helper defined in this module
+        if isinstance(n.func, ast.Name):
+            passed_pos = [i for i, a in enumerate(n.args) if _runtime_derived(a, fn, tainted)]
+            passed_kw = [k.arg for k in n.keywords if k.arg and _runtime_derived(k.value, fn, tainted)]
+            if passed_pos or passed_kw:
+                for h in _resolve_callable(repo, rel, n.func.id, n):
+                    hp = [x.arg for x in list(getattr(h.args, "posonlyargs", [])) + list(h.args.args)]
+                    t2 = {hp[i] for i in passed_pos if i < len(hp)} | {k for k in passed_kw if k in _params(h)}
+                    if t2:
+                        out.extend(super_calls(repo, rel, h, t2, template, _depth + 1, _visited))
+    return out
+
+
+_NOT_A_DICT = (ast.List, ast.Tuple, ast.Set, ast.ListComp, ast.SetComp, ast.GeneratorExp, ast.JoinedStr, ast.Constant)
+
+
+def _surely_not_dict(e: Optional[ast.AST], fn: ast.AST, _seen: Optional[Set[str]] = None) -> bool:
+    _seen = _seen if _seen is not None else set()
+    if e is None or isinstance(e, _NOT_A_DICT):
+        return True
+    if isinstance(e, ast.Name) and e.id not in _seen and e.id not in _params(fn):
+        _seen.add(e.id)
+        vals = assigned_value(fn, e.id)
+        return bool(vals) and all(_surely_not_dict(v, fn, _seen) for v in vals)
+    if isinstance(e, ast.IfExp):
+        return _surely_not_dict(e.body, fn, _seen) or _surely_not_dict(e.orelse, fn, _seen)
+    return False
+
+
 def run(repo: Repo, R: Report) -> None:
     R.assume(
         "inspect.getattr_static(cls, name) sees a classmethod object exactly when the template binds the name to classmethod(...) / @classmethod (directly or by inheritance from a base that does)",
@@ -162,6 +304,35 @@ def run(repo: Repo, R: Report) -> None:
                 rets = [n for n in walk_no_nested(pv[0]) if isinstance(n, ast.Return) and n.value is not None]
                 ok = all(isinstance(r.value, (ast.List, ast.ListComp, ast.BinOp, ast.Call, ast.Name)) and not isinstance(r.value, (ast.Set, ast.Tuple, ast.Dict)) for r in rets)
                 R.check(ok, r_shape, rel, tname, f"{prov} returns a list", f"`{prov}` of generated classes does not return a list (SVA104/105 error)", pv[0].lineno)
+    # super() anchors and SVA100 (metadata obtainable) on template members
+    r_sup = R.rule("C16-D1-template-super-anchor", "every super(...) call a generated class's method executes starts behind the class that defines the method (zero-argument form inside the template's class statement, or an explicit class): generated classes are subclassed by other factories (slicer of a swept processor, with_context_key), and a walk that starts behind the receiver's run-time class re-enters the same function", 4)
+    r_meta = R.rule("C16-D1-template-metadata", "a template's _define_metadata can be called on the class and yields a dict (SVA100): it is bound as a classmethod and no return value is a non-dict literal / missing", 4)
+    for rel, tname, attrs, bases, site in tmpl:
+        members = member_functions(repo, rel, attrs, site)
+        for attr, f, binding in members:
+            p0 = _first_param(f)
+            tainted = {p0} if (p0 and binding != "staticmethod") else set()
+            for call, where, verdict in super_calls(repo, rel, f, tainted, site):
+                wname = getattr(where, "name", "<lambda>")
+                why = {
+                    "runtime": f"`{ast.unparse(call)}` in `{attr}` of the generated class starts the MRO walk behind the receiver's run-time class: as soon as another factory subclasses the generated class (slicer of a swept processor, context-key-bound variant) the call resolves to this same function again - RecursionError, so get_metadata()/the method fails for the nested configuration (SVA100 error, class not registered)",
+                    "no-cell": f"zero-argument `super()` in `{attr}` is evaluated outside the class statement of the generated class (no `__class__` cell, or the factory's own class): the call raises for every generated class",
+                }.get(verdict, "")
+                R.check(verdict == "", r_sup, rel, f"{tname}.{attr}" if where is f else f"{tname}.{attr} via {wname}", norm(stmt_of(call)), why, call.lineno)
+        if "_define_metadata" in attrs:
+            node, is_cm = attrs["_define_metadata"]
+            fs = [(f, b) for a, f, b in members if a == "_define_metadata"]
+            bound_cm = is_cm or (bool(fs) and all(b == "classmethod" for _f, b in fs))
+            R.check(bound_cm, r_meta, rel, tname, "_define_metadata is a classmethod", "`_define_metadata` of the generated class is not a classmethod: `cls._define_metadata()` / get_metadata() raise, the catalogue reports SVA100 (error) and the class is never registered", getattr(node, "lineno", 0))
+            for f, _b in fs:
+                if isinstance(f, ast.Lambda):
+                    rets: List[Optional[ast.AST]] = [f.body]
+                else:
+                    rets = [n.value for n in walk_no_nested(f) if isinstance(n, ast.Return)]
+                    if not rets:
+                        rets = [None]
+                bad = [r for r in rets if _surely_not_dict(r, f)]
+                R.check(not bad, r_meta, rel, tname, "_define_metadata returns a dict", f"`_define_metadata` of the generated class returns {('`' + ast.unparse(bad[0]) + '`') if bad and bad[0] is not None else 'nothing'}, not a dict (SVA100 error)", getattr(f, "lineno", 0))
     # the signatures the sweep factory attaches
     bs = repo.func("semantiva/data_processors/parametric_sweep_factory.py", "_build_signature")
     R.check(not any(isinstance(c, ast.Constant) and c.value == "context" for c in ast.walk(bs)), r_shape, "semantiva/data_processors/parametric_sweep_factory.py", "_build_signature", "attached __signature__ has no `context` parameter", "the signature attached to generated _process_logic contains `context` (SVA250 error)", bs.lineno)
